@@ -78,11 +78,14 @@ type harnessResult struct {
 	assertsSeen int
 }
 
+// developer aid: VERIF_STOPON=<text> ends the exploration at the first violation containing text
+var stopOn = os.Getenv("VERIF_STOPON")
+
 func defaultOptions() options {
 	return options{
 		maxSteps:      3_000_000,
 		maxDecisions:  600,
-		maxThreads:    24,
+		maxThreads:    64,
 		concretizeMax: 16,
 		solverBin:     "z3-new",
 		solverTmoMs:   10000,
@@ -383,6 +386,13 @@ func (e *engine) explore(h *harnessSpec) *harnessResult {
 				}
 				if len(res.violations) >= 60 {
 					stop = true
+				}
+				if stopOn != "" {
+					for _, v := range r.violations {
+						if strings.Contains(v.Msg, stopOn) {
+							stop = true
+						}
+					}
 				}
 				mu.Unlock()
 				if stop {
